@@ -216,7 +216,12 @@ pub fn generate(thorough: bool, r: &mut Rng, em: &mut Emit) {
                     "type forest = vec bush;\ntype bush = vec forest;\nservice : { f : (forest) -> (bush) }\n",
                     "type a = vec b;\ntype b = opt a;\nservice : { f : (a) -> (b) }\n",
                     "type r = record { Type : nat; Match : text; Loop : bool; Ref : opt r; \"Use\" : vec r; \"Self\" : nat8; \"fn\" : int };\nservice : { get : () -> (r) query }\n",
-                    "type pair = record { nat; text };\ntype triple = record { pair; opt pair; vec record { int; bool } };\nservice : { f : (pair) -> (triple) }\n"];
+                    "type pair = record { nat; text };\ntype triple = record { pair; opt pair; vec record { int; bool } };\nservice : { f : (pair) -> (triple) }\n",
+                    // look-alikes of Result: the Ok / Err pair plus another case, or one of the two alone, named and anonymous
+                    "type Status = variant { Ok : nat; Err : text; Pending };\ntype Half = variant { Ok : nat };\nservice : { poll : () -> (Status) query; raw : () -> (variant { ok : nat; err : text; other : bool }); half : (Half) -> (variant { Err : text; Retry : nat }) }\n",
+                    // anonymous service and function types in nested positions whose signatures mention anonymous records / variants
+                    "type hub = record { sink : service { publish : (record { topic : text; body : blob }) -> (variant { queued; rejected : text }) }; owner : principal };\nservice : { hub : () -> (hub) query; sub : (opt service { note : (record { level : nat8; tags : vec text }) -> () }) -> () }\n",
+                    "type cb = func (record { code : nat16; why : opt text }) -> (variant { again; done : record { at : nat64 } }) query;\ntype reg = record { on : cb; also : vec func (variant { x; y : int }) -> () oneway };\nservice : { register : (reg) -> (opt cb) }\n"];
     for (text, known) in directed.iter().map(|t| (*t, 0u8)).chain(KNOWN_COLLISIONS.iter().map(|t| (*t, 1u8))).chain(NUMERIC_LABELS.iter().map(|t| (*t, 2u8))).chain(ONE_TUPLES.iter().map(|t| (*t, 3u8))) {
         if let Ok(b) = bind(text) { if let Ok((te, act)) = crate::ops::c12::load(text) {
             let env: Env = te.0.iter().map(|(k, v)| (k.clone(), T::from_type(v))).collect();
